@@ -722,6 +722,108 @@ def run_stress(job):
             "idents_distinct": True if serial else len(set(idents)) == len(idents)}
 
 
+# ---------------------------------------------------------------------------
+# NESTED queries: while the shared optimizer searches contraction A (cache miss) one of its trials asks THE SAME
+# optimizer object, on the same thread, about another contraction (the library does this: build_divide ->
+# contract_nodes(groups, optimize=super_optimize) -> find_path -> the preset's __call__)
+NEST = {"target": None, "inner_api": "path", "inner": [], "used": 0, "log": [], "bad": []}
+
+
+def _greedy_tree(inputs, output, size_dict):
+    ssa = PB.optimize_greedy(inputs, output, size_dict, use_ssa=True)
+    return ctg.ContractionTree.from_path(inputs, output, size_dict, ssa_path=ssa)
+
+
+def nest_direct_fn(inputs, output, size_dict, dummy=0, **kw):
+    """a trial function that, in the middle of its work, queries the shared optimizer about another contraction"""
+    if NEST["target"] is not None and getattr(TL, "depth", 0) == 0 and NEST["inner"]:
+        TL.depth = 1
+        saved = getattr(TL, "autocompleted", None)
+        try:
+            qb = NEST["inner"][NEST["used"] % len(NEST["inner"])]
+            NEST["used"] += 1
+            try:
+                kind, val = ask(NEST["target"], NEST["inner_api"], qb)
+                msg = judge(kind, val, qb)
+                NEST["log"].append(qb)
+                if msg:
+                    NEST["bad"].append({"inner_query": qb, "what": "NESTED query got a wrong result: " + msg,
+                                        "got": describe(kind, val)})
+            except Exception as e:
+                NEST["bad"].append({"inner_query": qb, "raised": repr(e)})
+        finally:
+            TL.depth = 0
+            TL.autocompleted = saved
+    return _greedy_tree(inputs, output, size_dict)
+
+
+def block_partition(inputs, output, size_dict, parts=2, seed=None, **kw):
+    n = len(inputs)
+    return [min(parts - 1, (i * parts) // max(n, 1)) for i in range(n)]
+
+
+def nest_builder_fn(inputs, output, size_dict, dummy=0, **kw):
+    """the library's own nesting: PartitionTreeBuilder.build_divide contracts the groups with super_optimize =
+    the shared optimizer (object or preset name)"""
+    from cotengra.core import PartitionTreeBuilder
+    sup = NEST["target"] if NEST["target"] is not None else "greedy"
+    if getattr(TL, "depth", 0) > 0:
+        sup = "greedy"
+    TL.depth = getattr(TL, "depth", 0) + 1
+    try:
+        NEST["log"].append("builder")
+        return PartitionTreeBuilder(block_partition).build_divide(
+            inputs, output, size_dict, cutoff=4, parts=3, parts_decay=1.0, sub_optimize="greedy", super_optimize=sup,
+            random_strength=0.0, seed=0)
+    finally:
+        TL.depth -= 1
+
+
+_NEST_REGISTERED = []
+
+
+def run_nested(job):
+    load_pool(job)
+    if not _NEST_REGISTERED:
+        space = {"dummy": {"type": "INT", "min": 0, "max": 3}}
+        H.register_hyper_function("c16-nest-direct", nest_direct_fn, space)
+        H.register_hyper_function("c16-nest-builder", nest_builder_fn, space)
+        _NEST_REGISTERED.append(1)
+    target = make_target(job)
+    shared = target
+    if job.get("bound_preset"):
+        from cotengra.interface import register_preset
+        name = "c16-shared-%d" % len(_NEST_REGISTERED)
+        _NEST_REGISTERED.append(name)
+        register_preset(name, target, target.search, register_opt_einsum=False)
+        shared = name
+    NEST.update(target=shared, inner_api=job.get("inner_api", "path"), inner=list(job.get("inner", [])), used=0,
+                log=[], bad=[])
+    bad, got = [], []
+    try:
+        for step, q in enumerate(job["history"]):
+            api = job.get("api", "tree")
+            nlog = len(NEST["log"])
+            try:
+                kind, val = ask(shared, api, q)
+            except Exception as e:
+                import traceback
+                bad.append({"step": step, "query": q, "api": api, "raised": repr(e), "tb": traceback.format_exc()[-800:]})
+                got.append(None)
+                continue
+            msg = judge(kind, val, q)
+            got.append({"nested_calls": NEST["log"][nlog:], "content": tree_content(val) if kind == "tree" else -1})
+            if msg:
+                bad.append({"step": step, "query": q, "api": api, "what": msg, "got": describe(kind, val),
+                            "nested_queries_during_this_call": NEST["log"][nlog:]})
+        for b in NEST["bad"]:
+            bad.append(dict(b, step=-1, query=b["inner_query"]))
+    finally:
+        nested_total = len(NEST["log"])
+        NEST.update(target=None)
+    return {"bad": bad, "got": got, "nested_total": nested_total}
+
+
 def main():
     data = json.load(sys.stdin)
     patch_needed = any(j["kind"] == "forced" for j in data["jobs"])
@@ -734,6 +836,8 @@ def main():
                 out.append(run_forced(job))
             elif job["kind"] == "seq":
                 out.append(run_seq(job))
+            elif job["kind"] == "nested":
+                out.append(run_nested(job))
             elif job["kind"] == "stress":
                 out.append(run_stress(job))
             else:
